@@ -19,7 +19,8 @@ func init() {
 			"R8.3 every UpdateTarget/UpdateExtraConfig call is on a shard certified in-sync (guard on the path, or provenance from the in-sync filter through parameters, closures and summaries); " +
 			"R8.4 every placement destination (map write through shardInfo.scraping) is certified in-sync; " +
 			"R8.5 the 'already scraped' set of the assigner is built from the unfiltered shard list and gates every first assignment; " +
-			"R8.6 every reachable (Ready) shard's report is fetched before any return of the report loader, independent of the hash comparison. " +
+			"R8.6 every reachable (Ready) shard's report is fetched before any return of the report loader, independent of the hash comparison; " +
+			"R8.7 the list builder returns only after waiting for every loader it started (the list is final when planning begins); the config push carries and applies the raw configuration only. " +
 			"Not decided: the sidecar's reaction to a pushed config (runtime behaviour).",
 		Assumptions: []string{"go/types and go/ssa are correct", "calls through injected function fields (getConfig, APIGet/APIPost) do not write coordinator planning state",
 			"weightedrand.Chooser.Pick returns the Item of one of the Choices given to NewChooser (reviewed in the pinned module)"}})
@@ -130,6 +131,7 @@ func runC08(p *engine.Prog, r *engine.Report) {
 	r.Min("R8.4-destination", 2)
 	r.Min("R8.5-scraped-set", 1)
 	r.Min("R8.6-report-fetched", 1)
+	r.Min("R8.7-complete-list", 1)
 
 	// ---- R8.1: stores to changeAble
 	nTrue := 0
@@ -367,6 +369,72 @@ func runC08(p *engine.Prog, r *engine.Report) {
 
 	// ---- R8.5: the assigner's scraped set
 	c.checkScrapedSet(r)
+
+	// ---- R8.7: the shard list handed to planning is complete and final: the list builder returns only after
+	// waiting for every loader it started (a loader finishing later would flip a shard's status mid-cycle)
+	for _, fn := range c.funcs {
+		if !c.isListBuilder(fn) {
+			continue
+		}
+		var probs []string
+		var waits []ssa.Instruction
+		nGo := 0
+		for _, in := range allInstrs(fn) {
+			switch x := in.(type) {
+			case *ssa.Call:
+				if o := engine.CalleeObj(x.Common()); o != nil && o.Name() == "Wait" && o.Pkg() != nil && (o.Pkg().Path() == "golang.org/x/sync/errgroup" || o.Pkg().Path() == "sync") {
+					waits = append(waits, x)
+				}
+				if o := engine.CalleeObj(x.Common()); o != nil && o.Name() == "Go" && o.Pkg() != nil && o.Pkg().Path() == "golang.org/x/sync/errgroup" {
+					nGo++
+				}
+			case *ssa.Go:
+				probs = append(probs, "a loader is started with a bare go statement at "+p.Rel(x.Pos())+" (nothing waits for it)")
+			case *ssa.Select:
+				probs = append(probs, "the list builder selects on channels at "+p.Rel(x.Pos())+" (it may return before every loader has finished)")
+			}
+		}
+		for _, ret := range returnsOf(fn) {
+			ok := false
+			for _, w := range waits {
+				if engine.InstrDominates(w, ret) {
+					ok = true
+				}
+			}
+			if !ok && nGo > 0 {
+				probs = append(probs, "return at "+p.Rel(ret.Pos())+" is not preceded by Wait() on the loaders")
+			}
+		}
+		r.Check(len(probs) == 0, "R8.7-complete-list", "list builder "+engine.FuncName(fn), engine.FuncName(fn)+" ("+p.Rel(fn.Pos())+")", "returns only after Wait() on every loader goroutine it started", strings.Join(probs, "; "))
+	}
+
+	// ---- R8.2b: the config push carries the raw configuration only, and the sidecar's push handler applies nothing else
+	{
+		reqT := p.Named(pkgShard, "UpdateConfigRequest")
+		mExtra := p.Method(pkgProm, "ConfigManager", "UpdateExtraConfig")
+		mRaw := p.Method(pkgProm, "ConfigManager", "ReloadFromRaw")
+		var probs []string
+		if reqT != nil {
+			for _, fn := range c.funcs {
+				for _, in := range allInstrs(fn) {
+					if st, ok := in.(*ssa.Store); ok {
+						if fa, ok := st.Addr.(*ssa.FieldAddr); ok && isPtrTo(fa.X.Type(), reqT) && engine.FieldOf(fa).Name() != "RawContent" {
+							probs = append(probs, "the config push also carries "+engine.FieldOf(fa).Name()+" (set at "+p.Rel(st.Pos())+"): an out-of-sync shard would receive more than the raw configuration")
+						}
+					}
+				}
+			}
+		}
+		for _, fn := range p.Funcs {
+			if !engine.InPkg(fn, pkgSide) || len(callsIn(fn, mRaw)) == 0 {
+				continue
+			}
+			if len(callsIn(fn, mExtra)) > 0 {
+				probs = append(probs, "the sidecar's config-push handler "+engine.FuncName(fn)+" also applies an extra-config update")
+			}
+		}
+		r.Check(len(probs) == 0, "R8.2-push", "content of the config push", "shard.UpdateConfigRequest writers and the sidecar's push handler", "the push carries and applies the raw configuration only", strings.Join(probs, "; "))
+	}
 }
 
 // unfiltered reports whether slice value s (in fn) is the unfiltered shard list: the result of a
